@@ -30,7 +30,7 @@ T = {
     text="Necessary conditions of C04 decided for every input at once: index discipline (variance, dimension, slot order) of all contractions; the written form of gdown4/gdet/gtt, the six 3+1 Christoffel blocks, Gauss/Codazzi/Mainardi pieces and contractions equals validated reference term lists in canonical form; populate_4Riemann table is conflict-free, symmetric and complete; vacuum branches differ only by matter terms.",
     note="Convergence at the scheme's order is not decided; reference term lists were validated once against finite-differenced 4D definitions (findings/validate_core.py)."),
  "C05": dict(
-    technique="static analysis: abstract interpretation of the tensor code (ast) into exact componentwise polynomials over opaque field atoms with per-slot index variance; einsum index-discipline rules; equality with reference index formulas evaluated in the same domain, per reachable configuration (vacuum flag, presence guards); the derivative helpers are interpreted on generic tensors for every supported index pattern",
+    technique="static analysis: abstract interpretation of the tensor code (ast) into exact componentwise polynomials over opaque field atoms with per-slot index variance; einsum index-discipline rules; equality with reference index formulas evaluated in the same domain, per reachable configuration (vacuum flag, presence guards); the derivative helpers are interpreted on generic tensors for every supported index pattern; axis/spacing term equalities of d3x/d3y/d3z and the tensor derivative maps on the partially evaluated finite-difference module",
     category="other", design="DESIGN.md section 9.2 and section 4 C05",
     text="Every supported index pattern of s_covd/st_covd/s_div/s_curl/Lie_beta is interpreted on a generic tensor and equals the operator's definition component by component (sign and slot position of every Christoffel / shift-derivative correction, density weight); the hand-written 27-entry Christoffel table and the Riemann/Ricci definitions (direct and BSSNOK split) equal their reference formulas.",
     note="Convergence not decided."),
@@ -60,17 +60,17 @@ T = {
     text="Both Weyl constructions are typed; the Riemann-based formula is antisymmetric in each pair, pair-symmetric and trace-free on index patterns; E/B formulas match reference term lists; Weyl scalars are the NP contractions by role; tetrad Gram-Schmidt steps have the signs required by the metric signature; invariants are the stated polynomials.",
     note="Convergence, numerical orthonormality and tetrad-independence are not decided."),
  "C11": dict(
-    technique="static analysis: ordering provenance in join_chunks, chunk-coverage rule (chunk count = maximum over all keys), geometry-per-dataset rule (ghost widths / origin not remembered across iterations), storage-order convention table over both readers, restart-selection flow (role-based: latest-first scan that stops at the first hit), name-map table agreement, definite assignment (ast + CFG + def-use)",
+    technique="static analysis: ordering provenance in join_chunks, chunk-coverage rule (chunk count = maximum over all keys), geometry-per-dataset rule (ghost widths / origin not remembered across iterations), iteration-coverage rule (the key lookup loop runs over the whole request and refuses a missing iteration), storage-order convention table over both readers, restart-selection flow (role-based: latest-first scan that stops at the first hit), name-map table agreement, definite assignment (ast + CFG + def-use)",
     category="other", design="DESIGN.md section 9.2 and section 4 C11",
     text="Structural clauses: every multi-chunk concatenation is ordered by a sort of the origin component paired with its axis; ghost trimming pairs axis i with nghostzones[2-i]; latest-restart selection; name maps mutually consistent; no use of a possibly-unassigned or stale loop variable.",
     note="Equality of returned data with file contents is not decided; ghost width >= 1 assumed."),
  "C12": dict(
-    technique="static analysis: row-index provenance (def-use closure) in cache writer and filler, writer/reader template agreement, separator-guard rule (the '/' between path and file name depends on the path's text only), empty-selection rule (vars=[] means everything on both sides), one-entry-per-iteration column rule, dataset write discipline (ast + def-use)",
+    technique="static analysis: row-index provenance (def-use closure) in cache writer and filler, writer/reader template agreement, dataset-read-key rule (the dataset read is named by the writer's template, never picked by a substring test), separator-guard rule (the '/' between path and file name depends on the path's text only), empty-selection rule (vars=[] means everything on both sides), one-entry-per-iteration column rule, dataset write discipline (ast + def-use)",
     category="other", design="DESIGN.md section 9.2 and section 4 C12",
     text="The index used to pick a row when filing into or filling from the cache is data-dependent on the iteration column of the dictionary it indexes; path/file/dataset-key templates of writer and reader agree.",
     note="Value equality across arbitrary call histories not decided."),
  "C13": dict(
-    technique="static analysis on the canonical form: row-index provenance (def-use), canonical string templates with role-named holes (writer vs reader), path-condition guard/use agreement, separator-guard and empty-selection rules, one-entry-per-iteration column rule, dataset write discipline, alias analysis of the arguments (ast + dataflow)",
+    technique="static analysis on the canonical form: row-index provenance (def-use), canonical string templates with role-named holes (writer vs reader), dataset-read-key rule, path-condition guard/use agreement, separator-guard and empty-selection rules, one-entry-per-iteration column rule, dataset write discipline, alias analysis of the arguments (ast + dataflow)",
     category="other", design="DESIGN.md section 9.2 and section 4 C13",
     text="Structural clauses of the save/read round trip decided on all paths.",
     note="HDF5 fidelity (h5py) trusted."),
@@ -85,27 +85,27 @@ T = {
     text="Each of the ten symbolic quantities equals its textbook definition component by component for a generic metric, independently of the simplify flag and of which intermediates are cached; every skipped component is zero by a symmetry, mirrored fills are exactly the tensor's symmetries; no method writes into a cached object.",
     note="Derivatives are opaque atoms (d_k of a component): agreement is of the written formula with the definition, not of a CAS evaluation for a particular metric; sympy's own simplify/diff are trusted."),
  "C16": dict(
-    technique="static analysis: partial evaluation of the constructor and of the helpers of finitedifference.py (values of the attributes as terms over the parameter table): exact polynomial form of the coordinate arrays, extent/size provenance, meshgrid convention, axis-sibling isomorphism of the attribute values, trimming helpers evaluated per rank, both directions of the Cartesian<->spherical map as closed forms over function atoms; arange count-determinism lint, axis-letter/index pairing (ast, exact arithmetic)",
+    technique="static analysis: partial evaluation of the constructor and of the helpers of finitedifference.py (values of the attributes as terms over the parameter table): exact polynomial form of the coordinate arrays, extent/size provenance, meshgrid convention, axis-sibling isomorphism of the attribute values, trimming helpers evaluated per rank, trim width = reach of the installed centred stencil per constructed order, both directions of the Cartesian<->spherical map as closed forms over function atoms; arange count-determinism lint, axis-letter/index pairing (ast, exact arithmetic)",
     category="other", design="DESIGN.md section 9.2 and section 4 C16",
     text="Count/shape/extent clauses decided for all parameters: N points per axis at min+i*d, extents are the last grid point, sizes derive from the arrays, axis letters pair with indices consistently, trims are symmetric multiples of mask_len.",
     note="The written Cartesian->spherical formulas are decided (r, arccos(z/r), sign(y) arccos(x/rho)); the numerical round trip to rounding is not."),
  "C17": dict(
-    technique="static analysis: numeric/symbolic sibling-branch agreement by polynomial normalisation over function atoms; component/axis pairing on the evaluated 3x3 matrices; static-metric <=> zero-K dependence rule; K = -(1/2 alpha) d_t gamma by syntactic differentiation of the expression trees (chain/product/power rules, exact normal forms, two declared facts); scaling-weight (dimensional homogeneity) type system over the closed forms with coordinate weights inferred from the module's own metric (ast, exact arithmetic)",
+    technique="static analysis: numeric/symbolic sibling-branch agreement by polynomial normalisation over function atoms; component/axis pairing on the evaluated 3x3 matrices; static-metric <=> zero-K dependence rule; K = -(1/2 alpha) d_t gamma by syntactic differentiation of the expression trees (chain/product/power rules, exact normal forms, two declared facts); scaling-weight (dimensional homogeneity) type system over the closed forms with coordinate weights inferred from the module's own metric; pointwise rule (coordinate-shaped arrays never rebound, subscripted or permuted) (ast, exact arithmetic)",
     category="other", design="DESIGN.md section 9.2 and section 4 C17",
     text="Decided on the expression trees: the numerical and symbolic forms of every bundled solution agree; K_ij is -(1/(2 alpha)) d_t of the module's own gamma_ij (zero shift) for 7 of 9 modules; entry (a, b) of the perturbed-FLRW tensors is built from axes a and b; in the five typable modules every closed form (K, T, rho, p, Ricci and Kretschmann scalars, null expansions) is homogeneous of the scaling weight its role requires.",
     note="Einstein's equations for the matter content and the published closed-form scalars are NOT decided (second derivatives, inverse metrics and simplification of transcendental expressions: computer algebra, not static analysis); the scaling rule is a necessary condition of those clauses only; declared facts: LCDM da/dt = a H, Szekeres dZ/dt = dtZ; 2 modules' K and the modules with dimensionful numerical constants are listed unverified / not typable."),
  "C18": dict(
-    technique="static analysis: token-collision analysis of parser guards vs writer templates with hole alphabets, protocol-order rule, writer/parser round trip of iterations.txt by abstract interpretation of the parser on the writer's line templates, level-representative provenance and level-coverage (every level 0..rlmax is merged), regex group-structure agreement, glob-anchor rule (a number read from a globbed path is located by the full literal prefix of the pattern), separator rule, module-state write rule, alias analysis of the merged overview, definite assignment / stale values across restarts (ast, re._parser, dataflow)",
+    technique="static analysis: token-collision analysis of parser guards vs writer templates with hole alphabets, protocol-order rule, writer/parser round trip of iterations.txt by abstract interpretation of the parser on the writer's line templates, level-representative provenance and level-coverage (every level 0..rlmax is merged), regex group-structure agreement, glob-anchor rule (a number read from a globbed path is located by the full literal prefix of the pattern), separator rule, module-state write rule, alias analysis of the merged overview, definite assignment / stale values across restarts, per-restart accumulators re-bound inside the restart loop (ast, re._parser, dataflow)",
     category="other", design="DESIGN.md section 9.2 and section 4 C18",
     text="Format-level clauses decided for all names: no parser guard token can occur in a free hole of another line's template; the restart header is written first; regex groups used exist, are digits where converted and are tested when optional; every catalogue line parses back, key by key and field by field, to what was stored in memory next to it; the component representing a refinement level is chosen among that level's datasets; the key separator is outside the name alphabet; no scan result is cached in module state; per-restart entries are not updated through the merged overview; no stale value crosses restarts.",
     note="That a scan reports what is on disk is not decided. The round trip of iterations.txt is decided for the seven line templates (lists instantiated with 0/2 generic elements, holes assumed free of the separators, which the token-collision rule establishes)."),
  "C19": dict(
-    technique="static analysis: abstract interpretation of the tensor code (ast) into exact componentwise polynomials over opaque field atoms with per-slot index variance; einsum index-discipline rules; equality with reference index formulas evaluated in the same domain, per reachable configuration (vacuum flag, presence guards)",
+    technique="static analysis: abstract interpretation of the tensor code (ast) into exact componentwise polynomials over opaque field atoms with per-slot index variance; einsum index-discipline rules; equality with reference index formulas evaluated in the same domain, per reachable configuration (vacuum flag, presence guards); includes the assembly of gdown4/gup4 from lapse, shift and 3-metric",
     category="other", design="DESIGN.md section 9.2 and section 4 C19",
     text="Necessary conditions: index discipline and written form of st_covd_udown4 (time derivative of u_mu), acceleration, projection, expansion, shear, vorticity.",
     note="The identities themselves (theta = -K, ...) and their convergence are not decided."),
  "C20": dict(
-    technique="static analysis: must-pass-through bounds refusal, analysis/synthesis agreement and angle roles decided on symbolic values (exact normal forms of the expressions), module-state and loop-carried-state rules, sphere-centre rule on the partially evaluated Psi4_lm (sampled points = centre + R n in grid coordinates), integer-overflow domain of the normalisation (ast, exact arithmetic)",
+    technique="static analysis: must-pass-through bounds refusal, element-order rule of the flatten/reshape pair of interpolate, analysis/synthesis agreement and angle roles decided on symbolic values (exact normal forms of the expressions), module-state and loop-carried-state rules, sphere-centre rule on the partially evaluated Psi4_lm (sampled points = centre + R n in grid coordinates), integer-overflow domain of the normalisation (ast, exact arithmetic)",
     category="other", design="DESIGN.md section 9.2 and section 4 C20",
     text="sYlm equals the Goldberg closed form as an exact polynomial in cos(theta/2), sin(theta/2), exp(i phi) for 115 (s, l, m) cases and is regular at the poles; extrapolating interpolator is only reachable through the bounds refusal; decomposition and reconstruction iterate the same (l,m) and call sYlm identically (conjugated in analysis); inclination/azimuth values flow only into parameters of their role; per-radius values do not carry over between radii.",
     note="sYlm is compared with the Goldberg closed form for |s| <= 2, l <= 4 (integers concrete, angles symbolic); larger l, the numerical quadrature error of the decomposition, interpolation exactness and convergence of the mode amplitudes are NOT decided."),
